@@ -200,3 +200,22 @@ def run(ctx):
         ctx.oblige(cw.get(rng) == cr.get(rng), "C04.6", "csr-meta:bytes[%d..%d]" % rng,
                    "segment meta bytes %d..%d hold `%s` when written and are read back as `%s`: every reopen after a compaction mis-reads the segment" % (rng[0], rng[1], cw.get(rng), cr.get(rng)),
                    "nervusdb-storage/src/csr.rs")
+
+    # ---- clause 7: sequential codecs ---------------------------------------------------------------------------
+    # The statistics blob and the index catalog page are variable-length: both sides walk them front to back.  The writer's sequence of
+    # integer widths (and, where both sides name the value, the names) must equal the reader's: reopen takes index ids and roots, and the
+    # per-label counts, from these bytes.
+    ctx.rule("C04.7", "sequential codecs (statistics blob, index catalog page) write and read the same sequence of integer widths, with the same names where both sides name them")
+    for enc, dec, floor in (("nervusdb_storage::stats::GraphStatistics::encode", "nervusdb_storage::stats::GraphStatistics::decode", 8),
+                            ("nervusdb_storage::index::catalog::encode_catalog_page", "nervusdb_storage::index::catalog::decode_catalog_page", 4)):
+        w = codec.seq_writer(ctx.body(enc))
+        r = codec.seq_reader(ctx.body(dec))
+        ctx.floor("C04.7", "integers written by %s" % enc.split("::")[-1], len(w), floor)
+        what = enc.split("::")[-2] if "::encode" == enc[-8:] else enc.split("::")[-1]
+        ctx.instance("C04.7", "%s writes %s ; reads %s" % (what, w, r))
+        ctx.oblige([x[1] for x in w] == [x[1] for x in r], "C04.7", "%s:width-sequence" % what,
+                   "the writer emits integer widths %s but the reader consumes %s: everything behind the first difference is mis-read after reopen" % ([x[1] for x in w], [x[1] for x in r]), ctx.body(dec).file)
+        for k, ((wn, _), (rn, _)) in enumerate(zip(w, r)):
+            if wn and rn:
+                ctx.oblige(wn == rn, "C04.7", "%s:name#%d" % (what, k),
+                           "position %d is written from `%s` and read back as `%s`" % (k, wn, rn), ctx.body(dec).file)
